@@ -59,13 +59,13 @@ Proof. exact ts_pairwise. Qed.
 Print Assumptions C05_ts_pairwise.
 
 (* non-vacuity: the example history satisfies nowrap (8-bit clock, samples 1, 4, 4, 5, ...) and
-   writes 13 timestamps of the three kinds *)
+   writes 11 timestamps of the three kinds *)
 Example C05_example_nowrap : nowrap (w_log ex_w).
 Proof.
-  unfold nowrap. replace (samples (w_log ex_w)) with [1; 4; 4; 5; 6; 7; 8; 9; 10; 11; 12]%Z
+  unfold nowrap. replace (samples (w_log ex_w)) with [1; 4; 4; 5; 6; 7; 8; 9; 10; 11]%Z
     by (vm_compute; reflexivity).
-  repeat (constructor; [|repeat (constructor; [discriminate|]); constructor]). constructor.
+  repeat constructor. all: discriminate.
 Qed.
 Example C05_example_stamps :
-  stamps (w_log ex_w) = [1; 4; 4; 5; 5; 5; 7; 8; 9; 10; 10; 11]%Z.
+  stamps (w_log ex_w) = [1; 4; 4; 5; 5; 5; 7; 8; 9; 10; 11]%Z.
 Proof. vm_compute. reflexivity. Qed.
